@@ -250,6 +250,25 @@ def run(c, prog, ctx):
                            "field of a flattened struct; externally tagged enums inside flattened structs are decoded from serde's buffered Content, "
                            "which rejects enums encoded as sequences (serde_cbor 0.8 legacy enum encoding)", prog.fn(path).where(), ty)
     c.floor("R2.flatten-enum", 5, "TxData has five fields")
+    # ------------------------------------------------------------- R2 representation of derived impls
+    # derive(Serialize) and derive(Deserialize) of one type agree on the data-model shape, and an enum is externally tagged
+    # (attributes such as serde(untagged) make the reader pick the first variant whose payload parses)
+    SK = {"serialize_struct": "struct", "serialize_newtype_struct": "newtype", "serialize_tuple_struct": "tuple", "serialize_map": "map",
+          "serialize_newtype_variant": "enum", "serialize_unit_variant": "enum", "serialize_tuple_variant": "enum", "serialize_struct_variant": "enum"}
+    DK = {"deserialize_struct": "struct", "deserialize_newtype_struct": "newtype", "deserialize_tuple_struct": "tuple", "deserialize_map": "map",
+          "deserialize_enum": "enum"}
+    for ty in sorted(set(S) & set(D)):
+        if "::_::<impl" not in S[ty] or "::_::<impl" not in D[ty]:
+            continue
+        sk = sorted({SK[callee_name(t).split("::")[-1]] for bi, t in prog.fn(S[ty]).body.calls(lambda t: callee_name(t).split("::")[-1] in SK)})
+        dk = sorted({DK[callee_name(t).split("::")[-1]] for bi, t in prog.fn(D[ty]).body.calls(lambda t: callee_name(t).split("::")[-1] in DK)})
+        is_enum = (ty_of(prog, ty) or {}).get("kind") == "enum"
+        good = len(sk) == 1 and sk == dk and (not is_enum or sk == ["enum"])
+        c.inst("R2.derived-representation", ty, good,
+               "writer shape %s, reader shape %s%s" % (sk or "none (delegates to the payload: untagged/transparent)", dk or "none (buffered content, variants tried in order)",
+                                                     "; an enum must be externally tagged: its variants carry payloads of the same wire shape" if is_enum else ""),
+               prog.fn(D[ty]).where(), ty)
+    c.floor("R2.derived-representation", 15, "derived Serialize+Deserialize pairs counted on the pinned tree")
     # ------------------------------------------------------------- R3 variant selection by present keys
     for ty in ("block::ExtData", "dynafed::Params"):
         vm = [k for k in prog.fns if k.startswith("<<%s as serde::Deserialize<'de>>::deserialize::Visitor as" % ty) and k.endswith("::visit_map")]
